@@ -167,9 +167,65 @@ def shard(ctx):
             ctx.flush_stats()
 
 
+def t_par_alias(rng):
+    """par loops whose iterations meet through two names of one buffer: a window statement made
+    before the loop (or in an enclosing sequential loop) against the buffer itself, two overlapping
+    windows, a window of a window; with disjoint controls that must stay accepted"""
+    from ..gen_prog import GenProgram, HEADER
+
+    N = rng.choice([4, 6, 8])
+    sh = rng.choice([1, 1, 2])
+    kind = rng.choice(["shift_win", "shift_win", "two_wins", "nested", "in_seq", "disjoint", "same_cell", "callee"])
+    pre = ""
+    if kind == "shift_win":
+        decl = f"w = x[{sh}:{N + sh}]"
+        body = rng.choice(["w[i] = x[i]", "x[i] = w[i]", "w[i] += x[i]"])
+    elif kind == "two_wins":
+        decl = f"w = x[{sh}:{N + sh}]\n    v = x[0:{N}]"
+        body = rng.choice(["w[i] = v[i]", "v[i] = w[i] * 2.0"])
+    elif kind == "nested":
+        decl = f"u = x[0:{N + sh}]\n    w = u[{sh}:{N + sh}]"
+        body = rng.choice(["w[i] = x[i]", "w[i] = u[i]"])
+    elif kind == "in_seq":
+        pre = "for t in seq(0, 2):\n        "
+        decl = f"w = x[{sh}:{N + sh}]"
+        body = "w[i] = x[i]"
+    elif kind == "disjoint":
+        decl = f"w = x[0:{N // 2}]\n    v = x[{N // 2}:{N}]"
+        body = "w[i] = v[i]"
+        N = N // 2
+    elif kind == "same_cell":
+        decl = f"w = x[0:{N}]"
+        body = rng.choice(["w[i] = x[i] * 2.0", "x[i] = w[i] + 1.0"])
+    else:
+        decl = f"w = x[{sh}:{N + sh}]"
+        body = "cp1(w[i:i + 1], x[i:i + 1])"
+    if pre:
+        text = f"""@proc
+def root(x: f32[{2 * N + 4}], y: f32[{N}]):
+    for t in seq(0, 2):
+        {decl}
+        for i in par(0, {N}):
+            {body}
+"""
+    else:
+        text = f"""@proc
+def cp1(dst: [f32][1], src: [f32][1]):
+    dst[0] = src[0]
+
+
+@proc
+def root(x: f32[{2 * N + 4}], y: f32[{N}]):
+    {decl}
+    for i in par(0, {N}):
+        {body}
+"""
+    return GenProgram(HEADER + text, "root", [], [], {"template": "par_alias"})
+
+
 def one(ctx, rng):
     try:
-        gp = gen_program(rng, knobs(rng))
+        gp = t_par_alias(rng) if rng.random() < 0.25 else gen_program(rng, knobs(rng))
         mod = load_program(gp.text, ctx.scratch)
     except CaseTimeout:
         raise
